@@ -75,6 +75,20 @@ def job_bytes(j):
     bad, n = run_all(bytes(d), fsweep.worker_path('c6b'), True, only_labels=('e2fsck -fn', 'e2fsck -fy', 'dumpe2fs', 'debugfs script') if not quick else ('e2fsck -fn', 'e2fsck -fy'))
     return (mid, bad, n)
 
+def job_undo_struct(mid):
+    p = fsweep.worker_path('c6u'); aux = p + '.aux'
+    main_ = AUX['undo'][0]
+    bad = []; n = 0
+    for label, argv in (('e2undo -n', [T['e2undo'], '-n', aux, p]), ('e2undo', [T['e2undo'], aux, p]), ('e2undo -f', [T['e2undo'], '-f', aux, p])):
+        with open(p, 'wb') as f: f.write(main_)
+        with open(aux, 'wb') as f: f.write(UNDO_STRUCT[mid])
+        rc, out = run(argv, timeout=TMO); n += 1
+        c = classify('e2undo', argv, rc, out)
+        if c and c[0] == 'hang':
+            rc, out = run(argv, timeout=150); c = classify('e2undo', argv, rc, out)
+        if c: bad.append((label, c[0], c[1]))
+    return (mid, bad, n)
+
 def job_sbpair(j):
     mid, quick = j
     labels = ('e2fsck -fn', 'dumpe2fs', 'debugfs script') if quick else ('e2fsck -fn', 'e2fsck -fy', 'dumpe2fs', 'debugfs script', 'e2image -r', 'tune2fs -l', 'resize2fs -P', 'e2freefrag')
@@ -247,6 +261,34 @@ def main(tier, only=None):
                 old = a[o]
                 for val in sorted(set([0, 0xff, old ^ 1, old ^ 0x80]) - {old}) if not quick else sorted(set([0xff, old ^ 1]) - {old}):
                     jobs.append(('%s+%d=0x%02x' % (kind, o, val), kind, o, val))
+        # structured mutants of the undo file with re-sealed checksums (header crc, key-block crc): the size/offset arithmetic behind the checksum gate
+        if 'undo' in AUX:
+            from xck.crc import crc32c as _c
+            ud = AUX['undo'][1]
+            ubs = struct.unpack_from('<I', ud, 32)[0] or 1024
+            koff = struct.unpack_from('<Q', ud, 24)[0] * ubs
+            fields = [('hdr.num_keys', 8, 8), ('hdr.super_offset', 16, 8), ('hdr.key_offset', 24, 8), ('hdr.block_size', 32, 4), ('hdr.fs_block_size', 36, 4), ('hdr.state', 44, 4), ('hdr.fs_offset', 64, 8)]
+            nk = min(3, struct.unpack_from('<Q', ud, 8)[0])
+            for k in range(nk):
+                fields += [('key%d.fsblk' % k, koff + 16 + 16 * k, 8), ('key%d.blk_crc' % k, koff + 16 + 16 * k + 8, 4), ('key%d.size' % k, koff + 16 + 16 * k + 12, 4)]
+            AUX['undo_struct'] = AUX['undo']
+            SJ = {}
+            for name, o, z in fields:
+                if o + z > len(ud): continue
+                old = int.from_bytes(ud[o:o + z], 'little'); top = (1 << (8 * z)) - 1
+                for v in sorted(set([0, 1, top, top - 1022, top - ubs + 1, 1 << (8 * z - 1), (old + 1) & top, (old - 1) & top, 512 * ubs + 1, 513 * ubs, ubs - 1]) - {old}):
+                    b = bytearray(ud); b[o:o + z] = v.to_bytes(z, 'little')
+                    if o >= koff and koff + ubs <= len(b):
+                        b[koff + 4:koff + 8] = b'\0\0\0\0'
+                        struct.pack_into('<I', b, koff + 4, _c(0xffffffff, bytes(b[koff:koff + ubs])))
+                    struct.pack_into('<I', b, 508, _c(0xffffffff, bytes(b[:508])))
+                    SJ['undo/%s=0x%x+seal' % (name, v)] = bytes(b)
+            globals()['UNDO_STRUCT'] = SJ
+            sres = pmap(job_undo_struct, sorted(SJ), chunksize=8)
+            for mid, bad, n in sres:
+                total += n
+                if bad: record(mid, bad, {'part': 'iii-struct', 'mutant': mid})
+            ck.part('iii_undo_structured', mutants=len(SJ))
         res = pmap(job_aux, jobs, chunksize=16)
         for (mid, bad, n), j in zip(res, jobs):
             total += n
@@ -272,7 +314,7 @@ def main(tier, only=None):
             if ck.expired(): ck.add(exhaustive=False); break
     ck.add(evaluations=total, distinct_nontrivial=max(2, sum(v.get('mutants', v.get('pairs', 0)) for v in ck.parts.values())), states=total, transitions=total, traces_validated_against_impl=total,
            rule='AddressSanitizer builds of the tools; inputs: (i) every single-field catalogue mutant of corpus images (re-sealed checksum where one would hide the field), (ii) every byte of every metadata block of a 128-block image '
-                'set to 0x00/0xff/^0x01/^0x80 and every pair of values of its superblock geometry fields (re-sealed checksum), (iii) the same treatments over the headers/tables of an external journal, an undo file and a qcow2 image, (iv, thorough) all pairs of per-field representatives; '
+                'set to 0x00/0xff/^0x01/^0x80 and every pair of values of its superblock geometry fields (re-sealed checksum), (iii) the same treatments over the headers/tables of an external journal, an undo file and a qcow2 image, plus boundary values for every header and key field of the undo file with re-sealed header and key-block checksums, (iv, thorough) all pairs of per-field representatives; '
                 'invocations: e2fsck -fn/-fy/-fp(/-fyD), dumpe2fs(-x -b), a 45-command read-only debugfs script(-c), tune2fs -l, resize2fs -P, e2image -r/-Q, e2freefrag, e2undo(-n/-f); '
                 'oracle: no sanitizer report, no fatal signal, exit within 20 s (150 s on re-run), documented exit status; evaluations = tool runs, distinct_nontrivial = distinct mutated inputs',
            samples=['ext4csum/ino12.i_size_lo=0x0+seal :: e2fsck -fy', 'tiny/blk5+17=0xff :: e2fsck -fn', 'undo+40=0xff :: e2undo'])
